@@ -2,6 +2,7 @@ package server
 
 import (
 	"encoding/base64"
+	"errors"
 	"sync"
 	"sync/atomic"
 	"time"
@@ -13,6 +14,8 @@ import (
 )
 
 const defaultUploadInterval = 1 * time.Minute
+
+var ErrInvalidRate = errors.New("user has a zero or negative bandwidth rate")
 
 // userPanel is used to authenticate new users and book keep active users
 type userPanel struct {
@@ -71,6 +74,10 @@ func (panel *userPanel) GetUser(UID []byte) (*ActiveUser, error) {
 	upRate, downRate, err := panel.Manager.AuthenticateUser(UID)
 	if err != nil {
 		return nil, err
+	}
+	if upRate <= 0 || downRate <= 0 {
+		// a token bucket cannot be built for such a rate (ratelimit panics); refuse the user instead
+		return nil, ErrInvalidRate
 	}
 	valve := mux.MakeValve(upRate, downRate)
 	user := &ActiveUser{
